@@ -141,6 +141,16 @@ func build(thorough bool) []doc {
 			if raw := rawFragment(p); raw != ref.FragmentEncode(p) && raw != "" {
 				docs = append(docs, doc{mkDoc(d, cont, raw), l.marker, d, "valid(raw) " + p, markers})
 			}
+			// RFC 6901 section 6: the fragment is percent-decoded as a whole before it is read as a
+			// pointer, so an encoded slash is a separator like any other (every 4th location)
+			if len(docs)%4 == 0 {
+				enc := strings.ReplaceAll(ref.FragmentEncode(p), "/", "%2F")
+				docs = append(docs, doc{mkDoc(d, cont, enc), l.marker, d, "valid(every / as %2F) " + p, markers})
+				if i := strings.LastIndex(ref.FragmentEncode(p), "/"); i > 0 {
+					f := ref.FragmentEncode(p)
+					docs = append(docs, doc{mkDoc(d, cont, f[:i]+"%2f"+f[i+1:]), l.marker, d, "valid(last / as %2f) " + p, markers})
+				}
+			}
 		}
 		// the same pointers read from inside an embedded resource (quick: every 3rd location)
 		n5 := 5000
@@ -159,6 +169,44 @@ func build(thorough bool) []doc {
 			docs = append(docs, doc{mkDocEmb(d, cont, decoy, ref.FragmentEncode(p)), l.marker, d, "valid (inside embedded resource) " + p, both})
 		}
 		docs = append(docs, doc{mkDocEmb(d, cont, decoy, ref.FragmentEncode(prefix[:len(prefix)-1]+"r")), -1, d, "invalid (inside embedded resource: names a location of the document root) " + prefix[:len(prefix)-1] + "r", both})
+		// pointers of exactly two segments: the marked subschemas sit directly in the root's $defs / definitions
+		{
+			kw := "$defs"
+			if d == ref.D07 {
+				kw = "definitions"
+			}
+			var es []string
+			var ms []int
+			type kp struct {
+				key string
+				m   int
+			}
+			var kps []kp
+			for i, key := range keyAlpha {
+				kb, _ := json.Marshal(key)
+				es = append(es, fmt.Sprintf(`%s:{"const":%d}`, kb, 9000+i))
+				ms = append(ms, 9000+i)
+				kps = append(kps, kp{key, 9000 + i})
+			}
+			flat := func(frag string) string {
+				fb, _ := json.Marshal("#" + frag)
+				if d == ref.D07 {
+					return fmt.Sprintf(`{"$schema":"http://json-schema.org/draft-07/schema#","definitions":{%s},"allOf":[{"$ref":%s}]}`, strings.Join(es, ","), fb)
+				}
+				return fmt.Sprintf(`{"$defs":{%s},"$ref":%s}`, strings.Join(es, ","), fb)
+			}
+			for _, x := range kps {
+				p := "/" + ref.PointerEscape(kw) + "/" + ref.PointerEscape(x.key)
+				docs = append(docs, doc{flat(ref.FragmentEncode(p)), x.m, d, "valid (two segments) " + p, ms})
+			}
+			for _, bad := range []string{"/" + kw + "/~", "/" + kw + "/~2", "/" + kw + "/a~b", "/" + kw + "/missing", "/" + kw + "/a/", "/" + kw, "/" + kw + "/", "/" + strings.ToUpper(kw) + "/a"} {
+				want := -1
+				if bad == "/"+kw+"/" {
+					want = 9000 // the empty key exists
+				}
+				docs = append(docs, doc{flat(ref.FragmentEncode(bad)), want, d, "two segments " + bad, ms})
+			}
+		}
 		// invalid pointers
 		for _, l := range locs {
 			for _, bad := range mutate(l.ptr) {
@@ -270,7 +318,7 @@ func unescape(s string) string {
 
 func Run(r *ev.Run) {
 	docs := build(r.Tier == "thorough")
-	r.Rule("for both drafts: a container schema with a uniquely marked subschema under every schema-valued, schema-array-valued (indices 0..2, allOf 0..11) and schema-map-valued keyword (33-key alphabet incl. keyword-like names 'items', 'type', 'not', 'allOf', 'dependencies', '', '/', '~', '~0', '~01', '%', '%25', ' ', non-ASCII, digits, '-', quotes) is referenced by '#'+percent-encoded RFC 6901 pointer (and raw non-ASCII form); nested to depth 2; " +
+	r.Rule("for both drafts: a container schema with a uniquely marked subschema under every schema-valued, schema-array-valued (indices 0..2, allOf 0..11) and schema-map-valued keyword (33-key alphabet incl. keyword-like names 'items', 'type', 'not', 'allOf', 'dependencies', '', '/', '~', '~0', '~01', '%', '%25', ' ', non-ASCII, digits, '-', quotes) is referenced by '#'+percent-encoded RFC 6901 pointer (raw non-ASCII form, and with slashes written as %2F); also as pointers of exactly two segments into a root-level $defs / definitions map that holds the whole key alphabet; nested to depth 2; " +
 		"also from inside an embedded $id resource whose pointers must be read relative to that resource while the document root holds a decoy container with other markers; plus every invalid mutation (index = length, a digit prepended or appended, pointers through absent containers, leading zeros, '-', signs, spaces, non-decimal digits, overflow, trailing slash, bad '~' escape, wrong letter case, Go field names, non-schema members). Valid pointers must select exactly the marked subschema (verdict vector over all markers), invalid ones must make Resolve fail. Documents are distinct by construction; every one is non-trivial")
 	r.Assume("the pointer of a location is built from the independent keyword table with RFC 6901 escaping and RFC 3986 fragment encoding (internal/ref/uri.go); R1 must agree with the constructed expectation (else harness error)")
 	r.Set("documents", len(docs))
